@@ -324,6 +324,6 @@ func newInterp(p *Program, sol *Solver, ex *Explorer, cfg *RunCfg, fnSteps map[*
 	return &Interp{prog: p.prog, pkg: p.pkg, sol: sol, ex: ex, cfg: cfg, globals: map[*ssa.Global]*Obj{}, penv: map[string]*StrV{},
 		covers: map[string]int{}, symSort: map[string]string{}, lines: map[string]*LineV{}, ufIsStr: map[string]bool{}, fnSteps: fnSteps, lits: map[string]string{}, catSeen: map[string]bool{}, models: p.models,
 		wraps: map[int][]Value{}, subs: map[string]subInfo{}, prefixes: map[string][]string{}, ufStrUsed: map[string]func(string) string{},
-		sch: &Sched{yield: make(chan struct{}), now: int64(0), locks: map[string]bool{}, wg: map[string]int{}, once: map[string]bool{},
+		sch: &Sched{yield: make(chan struct{}), now: int64(0), locks: map[string]bool{}, wg: map[string]int{}, once: map[string]bool{}, onceSt: map[string]int{},
 			dpor: cfg.DPOR, maxRev: cfg.MaxRev, race: cfg.Race, objVC: map[string]map[int]int{}, lastW: map[string]access{}, reads: map[string]map[int]access{}, races: map[string]bool{}}}
 }
